@@ -528,3 +528,4 @@ Proof.
   rewrite Forall_forall in Hb. specialize (Hb _ Hi).
   destruct (rd_lt _ _ Hb) as (r & Hr). rewrite Hr. cbn [bind]. rewrite (rd_ent _ _ _ Hr). reflexivity.
 Qed.
+End P.
